@@ -61,6 +61,14 @@ def sysStep (c : Cfg) (σ : Sys) : Ev → Sys
 
 def sysRun (c : Cfg) (evs : List Ev) : Sys := evs.foldl (sysStep c) {}
 
+/-- the closed system around the ROB as it was before repair 7c2f5a70 (`tickOld`: a flushing ROB
+    leaves its outgoing buffers alone); every other event as in `sysStep` -/
+def sysStepOld (c : Cfg) (σ : Sys) : Ev → Sys
+  | .tick => { σ with rob := (tickOld c σ.rob).1 }
+  | e => sysStep c σ e
+
+def sysRunOld (c : Cfg) (evs : List Ev) : Sys := evs.foldl (sysStepOld c) {}
+
 /-- the `Op` the ROB sees for an event (`none`: the event was refused / had no effect) -/
 def evOp (c : Cfg) (σ : Sys) : Ev → Option Op
   | .tick => some .tick
